@@ -275,8 +275,12 @@ func (t synthTI) json() []byte {
 	for _, id := range t.modOrder {
 		ms = append(ms, fmt.Sprintf(`{"id":"%s","mrsigner":"","attributes":"","attributesMask":"","tcbLevels":%s}`, id, elvls(t.mods[id])))
 	}
-	return []byte(fmt.Sprintf(`{"id":"%s","version":%d,"issueDate":"%s","nextUpdate":"%s","fmspc":"%s","pceId":"0000","tcbType":0,"tcbEvaluationDataNumber":%d,"tdxModuleIdentities":[%s],"tcbLevels":[%s]}`,
-		t.id, t.version, t.issue, t.next, t.fmspc, t.eval, strings.Join(ms, ","), strings.Join(ls, ",")))
+	seam := ""
+	if t.id == "TDX" {
+		seam = `"tdxModule":{"mrsigner":"` + strings.Repeat("00", 48) + `","attributes":"0000000000000000","attributesMask":"FFFFFFFFFFFFFFFF"},`
+	}
+	return []byte(fmt.Sprintf(`{"id":"%s","version":%d,"issueDate":"%s","nextUpdate":"%s","fmspc":"%s","pceId":"0000","tcbType":0,"tcbEvaluationDataNumber":%d,%s"tdxModuleIdentities":[%s],"tcbLevels":[%s]}`,
+		t.id, t.version, t.issue, t.next, t.fmspc, t.eval, seam, strings.Join(ms, ","), strings.Join(ls, ",")))
 }
 
 func (q synthQI) json() []byte {
@@ -330,6 +334,9 @@ func genSynth(rng *prng.R, n int) []CaseD {
 			copy(b[16:], r.Bytes(48)) // mrseam
 			if dev(10, "seam-signer-nonzero") {
 				b[64] = 1
+			}
+			if dev(12, "seam-attributes-nonzero") {
+				b[112+r.Intn(8)] = byte(1 + r.Intn(255))
 			}
 			attrs := uint64(1 << 28)
 			if debug {
